@@ -25,6 +25,8 @@ CONNECT_EXC: list[BaseException | None] = [None]
 NO_STOP_CALLBACK = [False]
 NODELAY_EXC: list[BaseException | None] = [None]  # setsockopt(TCP_NODELAY) on the connected socket raises this
 _FOREIGN_LOOP: list[Any] = []  # one per process, never run, never closed
+# what the wall clock reads inside aioesphomeapi.connection (the harness owns it; every new world starts at FIXED_EPOCH + 0.25)
+WALL = [float(FIXED_EPOCH) + 0.25]
 
 
 class _TimeShim:
@@ -36,7 +38,7 @@ class _TimeShim:
         self._t = _t
 
     def time(self) -> float:
-        return float(FIXED_EPOCH) + 0.25
+        return WALL[0]
 
     def __getattr__(self, name: str) -> Any:
         return getattr(self._t, name)
@@ -81,6 +83,7 @@ class World:
         hei.socket = SocketShim(self.net)  # type: ignore[assignment]
         self._saved_time = conn_mod.time
         conn_mod.time = _TimeShim()  # type: ignore[assignment]
+        WALL[0] = float(FIXED_EPOCH) + 0.25
         self.tasks: dict[str, asyncio.Task[Any]] = {}
         self.results: dict[str, tuple[str, Any, float]] = {}
         self.started: dict[str, float] = {}
